@@ -61,7 +61,7 @@ struct LoopCase {
     driver: String,
 }
 
-pub const DRIVERS: [&str; 8] = ["named-let", "callcc-backedge", "mutual-tail", "apply-tail", "do-nothing-but-builtins", "when-tail", "variadic-tail", "delay-force"];
+pub const DRIVERS: [&str; 9] = ["named-let", "callcc-backedge", "mutual-tail", "apply-tail", "do-nothing-but-builtins", "when-tail", "variadic-tail", "delay-force", "closure-threaded"];
 
 /// The loop that runs the garbage expression n times. The back edge differs: a tail call of a
 /// named-let procedure; the re-entry of a continuation captured once (no procedure is entered
@@ -109,6 +109,20 @@ fn loop_definition(driver: &str, garbage: &str) -> Vec<String> {
         "delay-force" => vec![
             format!("(define (%dstep i n) (delay-force (if (< i n) (begin {} (%dstep (+ i 1) n)) (delay 'done))))", garbage),
             "(define (%garbage-loop n) (force (%dstep 0 n)))".to_string(),
+        ],
+        // every iteration creates a closure and hands it to the next iteration in a loop variable;
+        // the closure's formals have the names of the loop's own variables; only the newest
+        // closure is live
+        "closure-threaded" => vec![
+            format!(
+                "(define (%cspin i n f) (if (< i n) (begin {} (%cspin (+ i 1) n (lambda (i n) (+ i n)))) (f 1 2)))",
+                garbage
+            ),
+            format!(
+                "(define (%cnamed n) (let loop ((i 0) (f (lambda (i) i))) (if (< i n) (begin {} (loop (+ i 1) (lambda (i) (+ i 1)))) (f 0))))",
+                garbage
+            ),
+            "(define (%garbage-loop n) (%cspin 0 n (lambda (i n) i)) (%cnamed n) 'done)".to_string(),
         ],
         "apply-tail" => vec![
             format!("(define (%spin i n) (if (< i n) (begin {} (apply %spin (+ i 1) (list n))) 'done))", garbage),
@@ -357,7 +371,7 @@ pub fn run(tier: Tier, seed: u64, ev: &mut Evidence) -> Vec<Violation> {
     let mut rng = Rng::new(mix(seed, "C12-loops", 0));
     for n in &loop_ns {
         for kind in KINDS.iter() {
-            for live in [0u64, 10, 1000] {
+            for live in [0u64, 10, 1000, 3000] {
                 let forms = *rng.pick(&[1u64, 1, 2, 7, 50]);
                 let chunk = *rng.pick(&[8192usize, 8192, 4096, 16384, 2048]);
                 let slice_budget = if rng.chance(1, 3) { Some(rng.range(50, 5000) as usize) } else { None };
@@ -385,7 +399,7 @@ pub fn run(tier: Tier, seed: u64, ev: &mut Evidence) -> Vec<Violation> {
                 let slice_budget = if rng.chance(1, 4) { Some(rng.range(9000, 50000) as usize) } else { None };
                 cases.push(LoopCase {
                     kind: kind.to_string(),
-                    live: *rng.pick(&[0u64, 10, 1000]),
+                    live: *rng.pick(&[0u64, 10, 1000, 3000]),
                     n: *n,
                     factor: 10,
                     forms: *rng.pick(&[1u64, 1, 3]),
